@@ -1,11 +1,87 @@
 /-
-Line-protocol handler of C13: the model questions are the ones of C01 (`run` on the original and on the
-transformed input; the harness compares the two answers), so the handler is C01's.
+Line-protocol handler of C13: the model questions about the molecule are the ones of C01 (`run` on the
+original and on the transformed input; the harness compares the two answers), so those go to C01's handler.
+The questions about `load_library.py` (Model/LoadLibrary.lean) are answered here:
+`{"op":"getparser","table":"ff"|"bld","ext":..,"islib":..}` -> `getParser`;
+`{"op":"readoptions","table":..,"lib":[{"path","suffix"}],"user":[..]}` -> `readOptions`;
+`{"op":"loadff","libnames":[..],"listing":{name:[files]},"extra":[files],"defs":{path:[names]}}` ->
+`loadFFLibrary` and, for every defined name, the path of the file whose definition the storage keeps.
+`{"op":"apply",..}` is forwarded to C02's handler (link model; used to skip inputs whose result depends on the
+VF2 enumeration order among matches of ONE link, as C02 does).
 -/
+import PolyplyVerif.Driver.Common
 import PolyplyVerif.Driver.C01
+import PolyplyVerif.Driver.C02
+import PolyplyVerif.Model.LoadLibrary
+
+open Lean PolyplyVerif PolyplyVerif.LoadLibrary PolyplyVerif.LibraryTables
 
 namespace PolyplyVerif.Driver.C13
 
-def handle := PolyplyVerif.Driver.C01.handle
+def fileOf (j : Json) : Except String File := do
+  pure ⟨← (← j.getObjVal? "path").getStr?, ← (← j.getObjVal? "suffix").getStr?⟩
+
+def filesOf (j : Json) : Except String (List File) := do
+  (← j.getArr?).toList.mapM fileOf
+
+def tableOf (j : Json) : Except String (List (String × String)) := do
+  match ← (← j.getObjVal? "table").getStr? with
+  | "ff" => pure forceFieldParsers
+  | "bld" => pure buildFileParsers
+  | t => throw s!"unknown table {t}"
+
+def choiceToJson : Choice → Json
+  | .parser p => Json.mkObj [("parser", Json.str p)]
+  | .reject => Json.str "IOError"
+  | .skipWarn => Json.str "skip-warn"
+  | .skipSilent => Json.str "skip"
+
+def callsToJson (r : Except String (List (String × String))) : List (String × Json) :=
+  match r with
+  | .ok cs => [("status", Json.str "ok"), ("calls", Json.arr (cs.map (fun c => Json.arr #[Json.str c.1, Json.str c.2])).toArray)]
+  | .error p => [("status", Json.str "IOError"), ("file", Json.str p)]
+
+def handleLibrary (op : String) (j : Json) : Except String Json := do
+  match op with
+  | "getparser" =>
+    let parsers ← tableOf j
+    let ext ← (← j.getObjVal? "ext").getStr?
+    let isLib ← (← j.getObjVal? "islib").getBool?
+    pure (okJson [("choice", choiceToJson (getParser parsers ext isLib))])
+  | "readoptions" =>
+    let parsers ← tableOf j
+    let lib ← filesOf (← j.getObjVal? "lib")
+    let user ← filesOf (← j.getObjVal? "user")
+    pure (okJson (callsToJson (readOptions parsers (lib, user))))
+  | "loadff" =>
+    let libNames ← (← (← j.getObjVal? "libnames").getArr?).toList.mapM (·.getStr?)
+    let listingJ ← j.getObjVal? "listing"
+    let listing : String → List File := fun name =>
+      match listingJ.getObjVal? name with
+      | .ok fs => (filesOf fs).toOption.getD []
+      | .error _ => []
+    let extra ← filesOf (← j.getObjVal? "extra")
+    let defsJ ← j.getObjVal? "defs"
+    let defs : String → List (String × String) := fun path =>
+      match defsJ.getObjVal? path with
+      | .ok ns => match ns.getArr? with
+        | .ok arr => arr.toList.filterMap (fun n => (n.getStr?).toOption.map (fun s => (s, path)))
+        | .error _ => []
+      | .error _ => []
+    let r := loadFFLibrary listing libNames extra
+    let winners : List (String × Json) :=
+      match r with
+      | .ok cs => [("winners", Json.arr ((storage defs cs).map (fun kv => Json.arr #[Json.str kv.1, Json.str kv.2])).toArray)]
+      | .error _ => []
+    pure (okJson (callsToJson r ++ winners))
+  | _ => throw s!"unknown op {op}"
+
+def handle (j : Json) : Except String Json :=
+  match (j.getObjVal? "op").bind (·.getStr?) with
+  | .ok "getparser" => handleLibrary "getparser" j
+  | .ok "readoptions" => handleLibrary "readoptions" j
+  | .ok "loadff" => handleLibrary "loadff" j
+  | .ok "apply" => PolyplyVerif.Driver.C02.handle j      -- the link model (stream links-relabel: order dependence filter)
+  | _ => PolyplyVerif.Driver.C01.handle j
 
 end PolyplyVerif.Driver.C13
